@@ -498,7 +498,11 @@ def _type_from_runtime(
             return AnyValue(AnySource.error)
     elif is_typing_name(type(val), "TypeVar"):
         tv = cast(TypeVar, val)
-        return make_type_var_value(tv, ctx)
+        if ctx.is_being_evaluted(tv):
+            # The bound, constraints or default of the TypeVar refer to itself.
+            return TypeVarValue(tv)
+        with ctx.add_evaluation(tv):
+            return make_type_var_value(tv, ctx)
     elif is_instance_of_typing_name(val, "ParamSpec"):
         return TypeVarValue(val, is_paramspec=True)
     elif is_typing_name(val, "Final") or is_typing_name(val, "ClassVar"):
